@@ -1,4 +1,5 @@
 """C01: dimension mismatches are rejected at compile time (and traits answer 'no' without a hard error)."""
+import json
 import random
 import re
 
@@ -35,7 +36,12 @@ Q_FORMS = [
     ("round_as_rep", "auto r = round_as<int>(u1, b); (void)r;"),
     ("common_type", "std::common_type_t<A, B> r{}; (void)r;"),
     ("will_overflow", "bool r = will_conversion_overflow(b, u1); (void)r;"), ("is_lossy", "bool r = is_conversion_lossy(b, u1); (void)r;"),
+    ("data_in", "auto &r = b.data_in(u1); (void)r;"), ("data_in_const", "const B cb = b; const auto &r = cb.data_in(u1); (void)r;"),
 ]
+# forms that additionally need identical units (twins: same unit only)
+SAME_UNIT_ONLY = ("mod", "data_in", "data_in_const", "pt_data_in")
+# a unit quotient of two different base dimensions against a dimensionless unit: two base dimensions that were merged would make it compile
+MERGE_FORMS = ("add", "eq", "implicit", "as", "common_type", "lt")
 Q_FORMS_20 = [("spaceship", "auto r = (a <=> b); (void)r;")]
 Q_FORMS_INT = [("mod", "auto r = ai % bi; (void)r;")]
 P_FORMS = [
@@ -49,6 +55,7 @@ P_FORMS = [
     ("pt_pluseq", "pa += b;"), ("pt_minuseq", "pa -= b;"),
     ("pt_min", "auto r = min(pa, pb); (void)r;"), ("pt_max", "auto r = max(pa, pb); (void)r;"), ("pt_clamp", "auto r = clamp(pa, pb, pb); (void)r;"),
     ("pt_round_as", "auto r = round_as(u1, pb); (void)r;"), ("pt_floor_in", "auto r = floor_in(u1, pb); (void)r;"),
+    ("pt_data_in", "auto &r = pb.data_in(u1); (void)r;"),
 ]
 INV_FORMS = [("inverse_as", "auto r = inverse_as(u1, b); (void)r;"), ("inverse_in", "auto r = inverse_in(u1, b); (void)r;"),
              ("inverse_as_rep", "auto r = inverse_as<double>(u1, b); (void)r;")]
@@ -61,6 +68,59 @@ INT_TRAITS = [("int_is_convertible", "std::is_convertible<BI, AI>::value"), ("in
               ("int_is_assignable", "std::is_assignable<AI &, BI>::value"), ("int_has_common_type", "auv_has_common<AI, BI>::value"),
               ("int_narrowing_is_convertible", "std::is_convertible<Quantity<U2, int64_t>, Quantity<U1, int8_t>>::value"),
               ("int_pt_is_convertible", "std::is_convertible<QuantityPoint<U2, int>, QuantityPoint<U1, int>>::value")]
+
+
+BASE_UNITS = ("Meters", "Grams", "Seconds", "Amperes", "Kelvins", "Moles", "Candelas", "Radians", "Bits")
+
+
+def merge_candidates(cat, rnd, count):
+    """(x / y, t): t has the dimension x / y would have if two base dimensions occurring in it were identified.  Selection only."""
+    base = {}
+    for u in cat.values():
+        if len(u["dim"]) == 1 and u["dim"][0]["n"] == 1 and u["dim"][0]["d"] == 1 and not u["mag"] and not u.get("origin"):
+            base.setdefault(u["dim"][0]["b"], u["id"])
+    ids = sorted(cat)
+    out = []
+    from fractions import Fraction
+
+    def dim_of(x, y):
+        d = {}
+        for t in cat[x]["dim"]:
+            d[t["b"]] = d.get(t["b"], 0) + Fraction(t["n"], t["d"])
+        for t in cat[y]["dim"]:
+            d[t["b"]] = d.get(t["b"], 0) - Fraction(t["n"], t["d"])
+        return {k: v for k, v in d.items() if v != 0}
+
+    def target(d, i, j):
+        m = dict(d)
+        m[j] = m[j] + m.pop(i)          # identify base dimension i with j
+        m = {k: v for k, v in m.items() if v != 0}
+        t = None
+        for k in sorted(m):
+            f = {"op": "unit", "id": base[k]}
+            if m[k] != 1:
+                f = {"op": "pow", "x": f, "r": [m[k].numerator, m[k].denominator]}
+            t = f if t is None else {"op": "mul", "l": t, "r": f}
+        return t or {"op": "unit", "id": "Unos"}
+    pairs = [(x, y) for x in ids for y in ids if x != y]
+    rnd.shuffle(pairs)
+    # every unordered pair of base dimensions gets candidates; derived units first (a product of two bare base units may be rejected for
+    # other reasons once their dimensions coincide)
+    pairs.sort(key=lambda p: (len(cat[p[0]]["dim"]) == 1) + (len(cat[p[1]]["dim"]) == 1))
+    per = {}
+    for x, y in pairs:
+        d = dim_of(x, y)
+        ks = sorted(d)
+        if len(ks) < 2 or any(k not in base for k in ks):
+            continue
+        for a in ks:
+            for b in ks:
+                if a < b and len(per.setdefault((a, b), [])) < (2 if count <= 40 else 6):
+                    i, j = (a, b) if rnd.random() < 0.5 else (b, a)
+                    per[(a, b)].append(({"op": "div", "l": {"op": "unit", "id": x}, "r": {"op": "unit", "id": y}}, target(d, i, j)))
+    for k in sorted(per):
+        out += per[k]
+    return out
 
 
 def decls(sp, e1, e2, rep="double"):
@@ -77,8 +137,18 @@ def run(ctx):
                 "twins without a hard error (bisected to the single query).  Non-trivial = rejecting probes and trait queries on mismatched pairs.")
     ctx.assumptions += ["g++ 12 / clang++ 14 accept/reject verdicts are the observable", "unit definitions are inputs (catalogue)"]
     cat, pre = unitcat.extract(ctx)
+    for idx, names in unitcat.base_dim_collisions(ctx):
+        ctx.violation({"kind": "base dimensions indistinguishable", "names": names},
+                      "the distinct base dimensions %s share the index %d: products and quotients mixing them cancel, so units of different dimension become "
+                      "interchangeable (e.g. a unit of %s per %s is treated as dimensionless)" % (" and ".join(names), idx, names[0], names[1]), detail=names)
     prep_specs(ctx, cat, pre, ["Gen_DimGuard.tla", "Gen_DimGuard.cfg"])
-    g = ctx.tlc(ctx.path("Gen_DimGuard.tla"), env={"TIER": ctx.tier}, timeout=1800, name="dimension guards")
+    extra = merge_candidates(cat, random.Random(ctx.seed + 1), 40 if ctx.tier == "quick" else 400)
+    ep = ctx.path("extra_pairs.ndjson")
+    with open(ep, "w") as f:
+        for a, b in extra:
+            f.write(json.dumps({"e1": a, "e2": b}) + "\n")
+    extra_keys = {(expr_str(a), expr_str(b)) for a, b in extra}
+    g = ctx.tlc(ctx.path("Gen_DimGuard.tla"), env={"TIER": ctx.tier, "EXTRA": ep}, timeout=1800, name="dimension guards")
     if not g.ok or len(g.cases) != g.distinct or not g.cases:
         raise core.ToolError("Gen_DimGuard failed\n" + g.out[-1500:])
     pairs = g.cases
@@ -96,7 +166,9 @@ def run(ctx):
         return [p for p in l if expr_str(p["e1"]) == a and expr_str(p["e2"]) == b]
     fixed = (find(mism, "Celsius", "Meters") + find(mism, "Meters", "Seconds") + find(mism, "Unos", "Radians") + find(mism, "Hertz", "Seconds") +
              find(mism, "Meters^3/2", "Feet^1/2") + find(mism, "Feet^1/2", "Meters^3/2") + find(mism, "Feet^2/3", "Meters^1/2") + find(mism, "Seconds^-1/2", "Seconds^-1"))
-    mism = fixed + [p for p in mism if p not in fixed][:nm]
+    merge = [p for p in mism if (expr_str(p["e1"]), expr_str(p["e2"])) in extra_keys] + [p for p in mism if expr_str(p["e2"]) == "Unos" and p["e1"]["op"] == "div" and p["e1"]["l"]["op"] == "unit" and p["e1"]["r"]["op"] == "unit"
+             and p["e1"]["l"]["id"] in BASE_UNITS and p["e1"]["r"]["id"] in BASE_UNITS]
+    mism = fixed + [p for p in mism if p not in fixed and p not in merge][:nm]
     same = (find(same, "Meters", "Feet") + find(same, "Celsius", "Kelvins") + find(same, "Seconds", "Seconds") + find(same, "Seconds^-1/2", "kilo(Hertz)^1/2") +
             find(same, "Meters^3/2", "Meters^3/2") + find(same, "Feet^1/2", "Meters^1/2") + [p for p in same][:ns])
     cfgs = core.QUICK_CONFIGS if ctx.tier == "quick" else core.ALL_CONFIGS
@@ -111,6 +183,11 @@ def run(ctx):
         return f
     # ---- rejects: one probe per (pair, form, cfg)
     jobs = []
+    for p in merge:
+        for cfg in probe_cfgs:
+            for name, stmt in Q_FORMS:
+                if name in MERGE_FORMS:
+                    jobs.append((p, cfg, name, stmt))
     for p in mism:
         for cfg in probe_cfgs:
             for name, stmt in forms_for(cfg, p):
@@ -157,7 +234,7 @@ def run(ctx):
     tj = []
     for p in same:
         for cfg in cfgs:
-            f = [x for x in forms_for(cfg, p) if x[0] != "mod" or expr_str(p["e1"]) == expr_str(p["e2"])]
+            f = [x for x in forms_for(cfg, p) if x[0] not in SAME_UNIT_ONLY or expr_str(p["e1"]) == expr_str(p["e2"])]
             # origin-carrying units: point conversions between different origins need the displacement to fit; doubles always do
             tj.append((p, cfg, f + (INV_FORMS if p["inv_samedim"] else [])))
     tf = [f for lst in ctx.pmap(twin, tj) for f in lst]
